@@ -132,10 +132,12 @@ func (p *prop) runModule(c core.Case, w *core.Worker, res *core.Result, r *rand.
 	globals := map[string][]string{"gengo:unrelated": {"x"}, "gengo:other:opt": {"g"}}
 	dirs := []string{"p1", "p2", "p3", "p4"}
 	// p4 imports p1..p3 so that an All run from p4 pulls the others in
-	state := specgen.GenSpec{Name: "state", Pkg: map[string]specgen.Behav{}, Def: specgen.Behav{Mode: "stateful"}}
+	state := specgen.GenSpec{Name: "state", Alias: true, Pkg: map[string]specgen.Behav{}, Def: specgen.Behav{Mode: "stateful"}}
 	perm := r.Perm(len(importSets))
 	for i, d := range dirs {
-		pk := layout.Pkg{Dir: d, Name: d, Types: []string{"Shared1", "Shared2", fmt.Sprintf("Own%d", i)}, Tags: tagSets[i]}
+		pk := layout.Pkg{Dir: d, Name: d, Types: []string{"Shared1", "Shared2", fmt.Sprintf("Own%d", i)}, Tags: tagSets[i],
+			// alias types with names shared across packages: the stateful generator also implements AliasGenerator
+			Aliases: []string{"AliasShared", fmt.Sprintf("AliasOwn%d", i)}}
 		if d == "p4" {
 			pk.Imports = []string{mod + "/p1", mod + "/p2", mod + "/p3"}
 		}
